@@ -77,7 +77,15 @@ def build_record(case: Dict[str, Any]) -> Any:
                                           product_category="cat"))
     for sub in case.get("subs", []):
         rec.add_subregion(SubRegion(common.make_location(sub["loc"]), "tool", label=sub["label"]))
-    if case.get("protos"):
+    if case.get("manual_cands"):
+        # candidate clusters put together by hand (a legal use of the API; members need not overlap)
+        from antismash.common.secmet.features import CandidateCluster
+        protos = rec.get_protoclusters()
+        by_product = {p.product: p for p in protos}
+        for members in case["manual_cands"]:
+            rec.add_candidate_cluster(CandidateCluster(CandidateCluster.kinds.NEIGHBOURING,
+                                                       [by_product[case["protos"][i]["product"]] for i in members]))
+    elif case.get("protos"):
         rec.create_candidate_clusters()
     rec.create_regions()
     return rec
@@ -135,6 +143,50 @@ def content_dump(rec: Any, region: Any) -> Dict[str, Any]:
     }
 
 
+def add_comments(case: Dict[str, Any], rec: Any, bio: Any) -> None:
+    """the structured comments the full record carries when region files are written: none (a fresh record, as in
+       the unit tests), the antiSMASH-Data comment put there by the real `main.add_antismash_comments` (plain, or
+       with the extract note of --start/--end), next to comments that came with the input, or an empty dict"""
+    import types
+    from antismash.main import add_antismash_comments
+    mode = case.get("comment", "none")
+    if mode == "none":
+        return
+    if mode == "empty":
+        bio.annotations["structured_comment"] = {}
+        return
+    if mode in ("others", "others+as"):
+        bio.annotations["structured_comment"] = {"Genome-Assembly-Data": {"Assembly Method": "SPAdes v. 3.1", "Coverage": "35x"},
+                                                 "Genome-Annotation-Data": {"Annotation Provider": "someone"}}
+    if mode in ("plain", "extract", "others+as"):
+        options = types.SimpleNamespace(version="7.test", start=-1, end=-1)
+        if mode == "extract":
+            options = types.SimpleNamespace(version="7.test", start=3, end=len(rec.seq) - 2)
+        add_antismash_comments([(rec, bio)], options)
+
+
+def comment_tree(annotations: Dict[str, Any]) -> Any:
+    """the structured comments as ordered pairs, values with whitespace normalised (GenBank wraps long values)"""
+    if "structured_comment" not in annotations:
+        return None
+    return [[str(name), [[str(k), " ".join(str(v).split())] for k, v in entries.items()]]
+            for name, entries in annotations["structured_comment"].items()]
+
+
+def full_text(bio: Any) -> str:
+    import io
+    from Bio import SeqIO
+    handle = io.StringIO()
+    try:
+        with warnings.catch_warnings():
+            warnings.simplefilter("ignore")
+            SeqIO.write([bio], handle, "genbank")
+    except Exception as exc:  # pylint: disable=broad-except
+        # e.g. Biopython cannot write an empty structured-comment dict; the same before and after
+        return "unwritable: " + type(exc).__name__
+    return handle.getvalue()
+
+
 def observe(case: Dict[str, Any]) -> Dict[str, Any]:
     import logging
     from Bio import SeqIO
@@ -143,6 +195,7 @@ def observe(case: Dict[str, Any]) -> Dict[str, Any]:
     try:
         rec = build_record(case)
         bio = rec.to_biopython()
+        add_comments(case, rec, bio)
     except Exception as exc:  # pylint: disable=broad-except
         # the layout could not be turned into a record (other properties' business): nothing to check
         return {"build_err": err_kind(exc), "msg": str(exc)[:200]}
@@ -150,12 +203,16 @@ def observe(case: Dict[str, Any]) -> Dict[str, Any]:
         feature.qualifiers[SRC] = [str(i)]
     parent = bio_features(bio)
     seq = str(bio.seq)
+    import copy
+    full_before = full_text(bio)
     regions = []
     with tempfile.TemporaryDirectory() as tmp:
         for k, region in enumerate(rec.get_regions()):
             entry: Dict[str, Any] = {"data": region_data(region), "content": content_dump(rec, region)}
             filename = os.path.join(tmp, f"r{k}.gbk")
             before = bio_features(bio)
+            ann_before = copy.deepcopy(bio.annotations)
+            entry["sc"] = comment_tree(bio.annotations)
             try:
                 with warnings.catch_warnings():
                     warnings.simplefilter("ignore")
@@ -165,6 +222,8 @@ def observe(case: Dict[str, Any]) -> Dict[str, Any]:
                 entry["msg"] = str(exc)[:200]
             entry["parent_same"] = bio_features(bio) == before and str(bio.seq) == seq
             entry["parent_same_as_first"] = bio_features(bio) == parent
+            entry["ann_same"] = bio.annotations == ann_before and rec._record.annotations == ann_before  # pylint: disable=protected-access
+            entry["sc_after"] = comment_tree(bio.annotations)
             if "write_err" not in entry:
                 with warnings.catch_warnings():
                     warnings.simplefilter("ignore")
@@ -172,6 +231,8 @@ def observe(case: Dict[str, Any]) -> Dict[str, Any]:
                 entry["n_records"] = len(written)
                 ext = written[0]
                 comment = ext.annotations.get("structured_comment", {}).get("antiSMASH-Data", {})
+                entry["file_sc"] = comment_tree(ext.annotations)
+                entry["file_topology"] = ext.annotations.get("topology")
                 entry["extract"] = {"seq": str(ext.seq), "features": bio_features(ext),
                                     "orig_start": comment.get("Orig. start"), "orig_end": comment.get("Orig. end"),
                                     "cross_note": "cross-origin" in " ".join(str(comment.get("NOTE", "")).split())}
@@ -204,7 +265,8 @@ def observe(case: Dict[str, Any]) -> Dict[str, Any]:
                     entry["reload_err"] = err_kind(exc)
                     entry["msg"] = str(exc)[:200]
             regions.append(entry)
-    return {"len": len(seq), "seq": seq, "parent": parent, "regions": regions}
+    return {"len": len(seq), "seq": seq, "parent": parent, "regions": regions,
+            "full_same": full_text(bio) == full_before}
 
 
 # --------------------------------------------------------------------------- generators
@@ -362,6 +424,10 @@ class C12(Property):
         ("antismash/common/secmet/locations.py", "build_location_from_others"),
         ("antismash/common/secmet/locations.py", "location_bridges_origin"),
         ("antismash/common/secmet/features/feature.py", "Feature.start"),
+        ("antismash/main.py", "add_antismash_comments"),
+        ("antismash/common/secmet/record.py", "Record.to_biopython"),
+        ("antismash/common/secmet/features/candidate_cluster/structures.py", "CandidateCluster.from_biopython"),
+        ("antismash/common/secmet/features/region/structures.py", "Region.from_biopython"),
     ]
     RULE = ("records (linear/circular, 40..3000 bases) with 0-6 protoclusters (cores and neighbourhoods, also over the "
             "origin, also with identical coordinates), 0-3 subregions, genes (single/multi-exon/origin-spanning, both "
@@ -375,7 +441,8 @@ class C12(Property):
     TRUSTED = ["Biopython SeqRecord slicing/addition, SeqFeature._shift, the GenBank writer and parser (exact positions, strands +1/-1)",
                "Record.to_biopython (C10) supplies the Biopython-level features the model starts from; Record.from_genbank (C10) "
                "is executed, not modelled, for the 're-loads with the same content' observation",
-               "leader/tail locations of origin-spanning precursor peptides are wrong before they reach this code (D8, C09) and are not generated",
+               "leader/tail locations of origin-spanning precursor peptides are not generated",
+               "main.add_antismash_comments is executed (real function, options stub with version/start/end) to put the antiSMASH-Data comment on the record; the Run date it writes is passed to the model as data",
                "fuzzy positions, strand 0/None features and mixed-strand compounds are outside the modelled domain"]
 
     # ------------------------------------------------------------------ generators
@@ -393,15 +460,20 @@ class C12(Property):
         for i in range(n):
             r = rng.random()
             if r < 0.70:
-                yield self.random_case(rng)
+                case = self.random_case(rng)
             elif r < 0.78:
-                yield self.whole_record_case(rng)
+                case = self.whole_record_case(rng)
             elif r < 0.86:
-                yield self.record_end_case(rng)
-            elif r < 0.94:
-                yield self.multi_exon_over_origin_case(rng)
+                case = self.record_end_case(rng)
+            elif r < 0.92:
+                case = self.multi_exon_over_origin_case(rng)
+            elif r < 0.96:
+                case = self.manual_candidate_case(rng)
             else:
-                yield self.three_around_origin_case(rng)
+                case = self.three_around_origin_case(rng)
+            # the structured comments the full record carries (main.add_antismash_comments runs before any file is written)
+            case["comment"] = rng.choice(["plain", "plain", "plain", "extract", "others+as", "others", "empty", "none"])
+            yield case
 
     def small_scope(self) -> Iterator[Dict[str, Any]]:
         length = 12
@@ -427,7 +499,8 @@ class C12(Property):
                         else:
                             continue
                         yield {"len": length, "circular": circular, "seqseed": k, "protos": [],
-                               "subs": [{"loc": loc, "label": "s"}], "cds": cds, "peps": [], "misc": []}
+                               "subs": [{"loc": loc, "label": "s"}], "cds": cds, "peps": [], "misc": [],
+                               "comment": ["plain", "others+as", "none", "extract"][(start + end + k) % 4]}
 
     def random_case(self, rng: random.Random, i: int = 0) -> Dict[str, Any]:
         length = rng.choice([40, 60, 60, 90, 120, 200, 400, 1000, 3000])
@@ -479,8 +552,8 @@ class C12(Property):
         case["subs"].append({"loc": span(start, end, length), "label": "over"})
         for i in range(rng.choice([1, 2, 3])):
             strand = rng.choice([1, -1])
-            x = length - rng.randint(1, 30)
-            y = rng.randint(1, 30)
+            x = length - rng.randint(2, 30)      # (a CDS of fewer than 3 bases is skipped by the loader)
+            y = rng.randint(2, 30)
             parts = [[x, length, strand], [0, y, strand]]
             if rng.random() < 0.5 and x - 8 > end + 5:
                 parts.insert(0, [x - 8, x - 3, strand])
@@ -507,6 +580,24 @@ class C12(Property):
             lo = rng.randint(0, max(0, end - size))
             case["peps"].append({"loc": simple(lo, lo + size, rng.choice([1, -1])), "name": "after",
                                  "lens": [1, size // 3 - 2, 1]})
+        return case
+
+    def manual_candidate_case(self, rng: random.Random) -> Dict[str, Any]:
+        """a candidate cluster put together by hand from protoclusters that do not overlap, with gaps around half
+           the length of the region file (KF-C12-circular-file-reconnects on circular records)"""
+        length = rng.choice([400, 1000, 3000])
+        circular = rng.random() < 0.7
+        unit = length // 40
+        start = rng.randrange(unit, 10 * unit)
+        span_len = rng.randrange(8 * unit, 20 * unit)
+        first = [start, start + rng.randrange(1, 3) * unit]
+        gap = rng.choice([span_len // 2 - unit, span_len // 2, span_len // 2 + 1, span_len * 2 // 3, span_len // 4])
+        second_lo = min(first[1] + gap, start + span_len - unit)
+        second = [second_lo, start + span_len]
+        case = gen_layout(rng, length, circular, n_protos=0, n_subs=0, n_cds=rng.choice([0, 3]), n_peps=0, n_misc=0)
+        case["protos"] = [{"core": simple(first[0], first[1]), "loc": simple(first[0], first[1]), "product": "left"},
+                          {"core": simple(second[0], second[1]), "loc": simple(second[0], second[1]), "product": "right"}]
+        case["manual_cands"] = [[0, 1]]
         return case
 
     def three_around_origin_case(self, rng: random.Random) -> Dict[str, Any]:
@@ -538,7 +629,7 @@ class C12(Property):
             return None
         regions = []
         for r in obs["regions"]:
-            entry: Dict[str, Any] = {"data": r["data"], "locs": content_locs(r["content"])}
+            entry: Dict[str, Any] = {"data": r["data"], "locs": content_locs(r["content"]), "sc": r.get("sc")}
             if "extract" in r:
                 entry["impl"] = {"features": r["extract"]["features"]}
             regions.append(entry)
@@ -552,7 +643,11 @@ class C12(Property):
             return Judgement(False, True, detail=f"driver error {drv['err']}")
         corr, spec = True, True
         details: List[str] = []
-        tags: List[str] = [f"regions={min(len(obs['regions']), 4)}", "circular" if case["circular"] else "linear"]
+        tags: List[str] = [f"regions={min(len(obs['regions']), 4)}", "circular" if case["circular"] else "linear",
+                           "comment=" + case.get("comment", "none")]
+        if obs["regions"] and not obs.get("full_same", True):
+            spec = False
+            details.append("the full-record GenBank text written after the region files differs from the one written before")
         known: Optional[str] = None
         nontrivial = False
         for k, (r, d) in enumerate(zip(obs["regions"], drv["regions"])):
@@ -593,6 +688,13 @@ class C12(Property):
                     details.append(f"{where}: model leaves the parent changed")
                 if m["parent_touched"]:
                     tags.append("parent-touched-and-restored")
+                if d["ann"].get("file") != r.get("file_sc"):
+                    corr = False
+                    details.append(f"{where}: structured comments: model {d['ann'].get('file')} vs file {r.get('file_sc')}")
+                if d["ann"].get("parent_after") != r.get("sc_after"):
+                    corr = False
+                    details.append(f"{where}: full record's structured comments afterwards: model {d['ann'].get('parent_after')} "
+                                   f"vs real {r.get('sc_after')}")
             # ---------------- spec on what the implementation wrote
             e = r["extract"]
             oi = d["on_impl"]
@@ -615,6 +717,12 @@ class C12(Property):
                     problems.append(f"{flag} fails")
             if not r["parent_same"]:
                 problems.append("the full record was changed by writing the region file")
+            if not r["ann_same"]:
+                problems.append(f"the full record's annotations were changed by writing the region file: structured comments "
+                                f"{r['sc']} became {r['sc_after']}")
+            ann = d["ann"]
+            if r.get("file_sc") != ann.get("expected"):
+                problems.append(f"structured comments of the region file: {r.get('file_sc')}, expected {ann.get('expected')}")
             # ---------------- loading the file again
             class_here: Optional[str] = None
             if "reload_err" in r:
@@ -644,6 +752,8 @@ class C12(Property):
                                         f"found {[found[x] for x in keys][:1]}")
                         if d["kf_equal_areas"] and keys == ["cands"]:
                             class_here = "KF-C12-equal-areas"
+                        if d["kf_file_reconnects"]:
+                            class_here = "KF-C12-circular-file-reconnects"
                     if (rl["n_protos"], rl["n_cands"], rl["n_subs"]) != (
                             r["content"]["n_protos"], len(r["content"]["cands"]), len(r["content"]["subs"])):
                         problems.append("loaded record has other areas than the region's")
